@@ -4,7 +4,7 @@ Model: spec/Narrowing.tla (+ spec/Boolability.tla), extending Assign.tla / Value
 TLC proves, for every type term V of the bounded space, every condition c (isinstance, issubclass,
 TypeIs / TypeGuard functions, is / is not, == / !=, in / not in, truthiness, len comparisons, the class /
 identity constraints behind assert_is_instance / assert_is, not / and / or over those, and the value /
-singleton / class / or patterns of `match`) and both
+singleton / class / or / sequence (fixed and starred, capture sub-patterns) patterns of `match`) and both
 polarities, that the modelled narrowing keeps every object of V on which the condition evaluates to the
 polarity (N1), adds nothing outside V and the tested type (N2), and that an always-true / always-false
 truthiness verdict is right for every object (N3) -- up to the named deviation classes.
@@ -30,7 +30,7 @@ LEVEL = "model_checking"
 ACTIONS = [
     "ChooseV", "ChooseVCompound", "ChooseIsinstance", "ChooseIssubclass", "ChooseTypeIs", "ChooseTypeGuard", "ChooseIs",
     "ChooseEq", "ChooseIn", "ChooseTruthy", "ChooseLen", "ChooseLegacyIsinstance", "ChooseLegacyIsvalue", "ChooseNot",
-    "ChooseAnd", "ChooseOr", "ChooseDeep", "ChooseMatch", "ChooseMatchOr",
+    "ChooseAnd", "ChooseOr", "ChooseDeep", "ChooseMatch", "ChooseMatchOr", "ChooseMatchSeq",
 ]
 BATCH = 6000
 
@@ -149,7 +149,7 @@ def run(check: core.Check) -> None:
         "TypeIs / TypeGuard functions are hand-written run-time tests of exactly their type (validated against Member)",
         "visitor route: no model prediction (oracle only) for and/or conditions and for conditions containing a call the "
         "visitor rejects; V with *tuple[...] segments and the class/identity constraints (assert_is_instance) are api-route only",
-        "not covered: sequence / mapping / class-with-subpattern / guarded match patterns, comparison predicates other than len (x < 3), len inside and/or chains (MinLen/MaxLen "
+        "not covered: mapping / class-with-subpattern / guarded / nested sequence match patterns, comparison predicates other than len (x < 3), len inside and/or chains (MinLen/MaxLen "
         "annotations), TypedDict / Callable / TypeVar values, attribute or subscript targets (self.x, a[0])",
     ]
     cfg = "Narrowing.quick.cfg" if quick else "Narrowing.thorough.cfg"
@@ -189,7 +189,7 @@ def run(check: core.Check) -> None:
     )
     kinds = {c["c"]["kind"] for c in cases}
     missing = {"isinstance", "issubclass", "typeis", "typeguard", "is", "eq", "in", "truthy", "boolcall", "len", "c_isinstance",
-               "c_isvalue", "not", "and", "or", "m_value", "m_singleton", "m_class", "m_or"} - kinds
+               "c_isvalue", "not", "and", "or", "m_value", "m_singleton", "m_class", "m_or", "m_seq"} - kinds
     if missing:
         raise core.MachineryError(f"condition kinds never generated: {sorted(missing)}")
     counts = judge(check, cases, vs, objs_t, "tlc-exhaustive")
